@@ -26,6 +26,7 @@ import (
 	"strconv"
 	"strings"
 	"sync"
+	"sync/atomic"
 	"time"
 
 	"grits/parser"
@@ -57,6 +58,7 @@ type sched struct {
 	steps    int
 	panics   []string
 	watchdog bool
+	wdLimit  time.Duration
 	last     *task
 	running  *task // the task released alone (spawns only happen in such segments)
 }
@@ -82,7 +84,16 @@ func (s *sched) find(p *process.Process) *task {
 func (hooks) Spawn(p *process.Process, re *process.RuntimeEnvironment, run func()) {
 	s := cur
 	if s == nil || s.free != 0 || s.n >= maxTasks {
-		go run()
+		// outside the serial scheduler (free runs, stragglers, overflow): an interpreter panic - the
+		// non-polarized mode's known defect F16 produces them - must not take the racer down
+		go func() {
+			defer func() {
+				if r := recover(); r != nil {
+					atomic.AddInt32(&freePanics, 1)
+				}
+			}()
+			run()
+		}()
 		return
 	}
 	i := s.n
@@ -202,7 +213,7 @@ func (s *sched) run(maxSteps int) bool {
 		began := time.Now()
 		for n := 0; !s.quiet(); n++ {
 			runtime.Gosched()
-			if n%4096 == 4095 && time.Since(began) > 20*time.Second {
+			if n%4096 == 4095 && time.Since(began) > s.wdLimit {
 				s.watchdog = true
 				return false
 			}
@@ -322,6 +333,12 @@ type Case struct {
 	Monitor  bool   `json:"monitor"`
 	Strategy int    `json:"strategy"`
 	Vec      []int  `json:"vec"`
+	// Free: no serial scheduler - the run goes through process.InitializeProcesses exactly as the
+	// command line does (own heartbeat receiver, real timers, real `print` output) and the Go
+	// runtime interleaves the process goroutines. The detector still works on happens-before.
+	Free bool `json:"free,omitempty"`
+	// CF: the program neither splits a channel nor declares a multi-name provider
+	CF bool `json:"contraction_free"`
 }
 
 func drawCase(ch choice.Chooser) *Case {
@@ -329,12 +346,17 @@ func drawCase(ch choice.Chooser) *Case {
 	p := gen.Generate(ch.Intn, gen.Options{Collide: ch.Intn(2) == 1, MainStructured: ch.Intn(3) == 1})
 	c.Text = p.Text()
 	c.Mode = ch.Intn(3)
-	if c.Mode == 2 && !p.ContractionFree() {
-		c.Mode = ch.Intn(2) // the non-polarized mode is unsound with contraction (known finding F16); its races would be noise
+	c.CF = p.ContractionFree()
+	if c.Mode == 2 && !p.ContractionFree() && ch.Intn(2) == 0 {
+		// the non-polarized mode is unsound with contraction (known finding F16: operations on closed
+		// channels, panics - counted, not C13's business); half of those cases are moved to a polarized
+		// mode so that the budget is not spent on runs that die early, the other half runs as drawn
+		c.Mode = ch.Intn(2)
 	}
 	c.Monitor = ch.Intn(3) == 1
 	c.Strategy = ch.Intn(4)
 	c.Vec = ch.Ints(120, 16)
+	c.Free = ch.Intn(5) == 1
 	return c
 }
 
@@ -349,6 +371,8 @@ type caseResult struct {
 
 var phase [6]time.Duration
 
+var freePanics int32
+
 func runCase(c *Case) caseResult {
 	t0 := time.Now()
 	defer func() { phase[5] += time.Since(t0) }()
@@ -362,7 +386,12 @@ func runCase(c *Case) caseResult {
 	}
 	phase[0] += time.Since(t0)
 	t1 := time.Now()
-	s := &sched{vec: c.Vec, strategy: c.Strategy}
+	s := &sched{vec: c.Vec, strategy: c.Strategy, wdLimit: 20 * time.Second}
+	if c.Mode == 2 && !c.CF {
+		// non-polarized mode with contraction: the known defect F16 (channels closed under their
+		// users) can leave a released task blocked for real; such a run is abandoned, quickly
+		s.wdLimit = 1500 * time.Millisecond
+	}
 	setCur(s)
 	re, _, cancel := process.NewRuntimeEnvironment()
 	re.GlobalEnvironment = env
@@ -371,6 +400,18 @@ func runCase(c *Case) caseResult {
 	re.Quiet = true
 	re.ExecutionVersion = process.Execution_Version(c.Mode)
 	re.UseMonitor = c.Monitor
+	if c.Free {
+		setFree(s)
+		re.Quiet = false
+		process.InitializeProcesses(procs, nil, nil, re)
+		phase[2] += time.Since(t1)
+		_ = re.ProcessCount()
+		_ = re.DeadProcessCount()
+		_ = re.TimeTaken()
+		time.Sleep(200 * time.Microsecond)
+		_ = re.ProcessCount()
+		return caseResult{Accepted: true, Steps: int(re.ProcessCount()), Tasks: int(re.ProcessCount())}
+	}
 	channels := re.CreateChannelForEachProcess(procs)
 	re.SubstituteNameInitialization(procs, channels)
 	if c.Monitor {
@@ -538,12 +579,12 @@ func matchKnown(kfs []knownFinding, sig string) string {
 func single(path string) {
 	b, err := os.ReadFile(path)
 	if err != nil {
-		fmt.Println("cannot read", path, err)
+		fmt.Fprintln(out, "cannot read", path, err)
 		os.Exit(2)
 	}
 	var rf replayFile
 	if err := json.Unmarshal(b, &rf); err != nil {
-		fmt.Println("bad replay file:", err)
+		fmt.Fprintln(out, "bad replay file:", err)
 		os.Exit(2)
 	}
 	c := rf.Input
@@ -552,17 +593,17 @@ func single(path string) {
 	}
 	res := runCase(c)
 	if res.Watchdog {
-		fmt.Println("WATCHDOG")
+		fmt.Fprintln(out, "WATCHDOG")
 		os.Exit(2)
 	}
 	time.Sleep(5 * time.Millisecond)
 	reps := readReports()
-	out := struct {
+	outv := struct {
 		Reports []report   `json:"reports"`
 		Result  caseResult `json:"result"`
 	}{reps, res}
-	jb, _ := json.Marshal(out)
-	fmt.Println(string(jb))
+	jb, _ := json.Marshal(outv)
+	fmt.Fprintln(out, string(jb))
 	for _, r := range reps {
 		if r.Grits {
 			os.Exit(66)
@@ -651,7 +692,7 @@ func worker() {
 	}
 	defer func() {
 		if os.Getenv("RACER_TIMING") != "" {
-			fmt.Println("phases parse/tc, setup, run, epilogue, -, total:", phase)
+			fmt.Fprintln(out, "phases parse/tc, setup, run, epilogue, -, total:", phase)
 		}
 		o.WallS = time.Since(start).Seconds()
 		b, _ := json.MarshalIndent(o, "", " ")
@@ -669,6 +710,10 @@ func worker() {
 			o.Rejected++
 			continue
 		}
+		if res.Watchdog && c.Mode == 2 && !c.CF {
+			o.Extra["np_contraction_runs_abandoned_by_the_watchdog(F16)"]++
+			continue
+		}
 		if res.Watchdog {
 			o.Trouble = append(o.Trouble, "watchdog: a released task never parked again; program: "+c.Text)
 			break
@@ -679,6 +724,12 @@ func worker() {
 		o.Tasks += int64(res.Tasks)
 		if c.Monitor {
 			o.Faults["monitor_attached_run"]++
+		}
+		if c.Free {
+			o.Extra["free_runs_through_InitializeProcesses(real timers, real print output)"]++
+		}
+		if n := atomic.SwapInt32(&freePanics, 0); n > 0 {
+			o.Extra["interpreter_panics_outside_the_serial_scheduler(not C13's business)"] += int(n)
 		}
 		if len(res.Panics) > 0 {
 			o.Extra["runs_with_interpreter_panic(not C13's business)"]++
@@ -796,7 +847,15 @@ func hashCase(c *Case) uint64 {
 	return h
 }
 
+// out is the racer's own standard output; os.Stdout itself is pointed at /dev/null before any
+// goroutine exists, so that the interpreter's `print` really writes (free-run cases) without
+// flooding the logs and without the harness ever touching os.Stdout while stragglers run.
+var out = os.Stdout
+
 func main() {
+	if dn, err := os.OpenFile(os.DevNull, os.O_WRONLY, 0); err == nil {
+		os.Stdout = dn
+	}
 	process.Sim = hooks{}
 	if len(os.Args) >= 3 && os.Args[1] == "single" {
 		single(os.Args[2])
